@@ -16,7 +16,7 @@ SPEC = dict(
              "tree carrying all significant levels <= l through the chained hashes, Proofs/Binding.lean): corresponding cells have equal hashes at the level "
              "they are looked at, and each pair is either a pruned branch answering with a stored hash and the subtree carrying that hash, or two cells of "
              "the same type with the same BIT STRING (padding invertibility, Proofs/Pad.lean), the same reference count and agreeing children; c11_sound: "
-             "accept => Agree 0 body t for every t with that level-0 hash; c11_reject_changed / c11_binding_pruned_hash: a changed bit, type or reference "
+             "accept => Agree 0 body t for every t with that level-0 hash, c11_sound_everywhere: and along every path of reference indices down to each unpruned cell; c11_reject_changed / c11_binding_pruned_hash: a changed bit, type or reference "
              "of an unpruned cell and a substituted pruned hash are rejected; account check: acceptance implies the supplied state's own "
              "representation hash equals the level-0 hash of the located account cell, so a pruned branch (or a Merkle proof) that merely carries the "
              "hash is rejected (c11_account_sound, c11_account_reject_pruned). Tie: differential correspondence library = model on generated trees, "
